@@ -190,7 +190,7 @@ package table
 // followed by the stored difference, and takes the rest of the entry as its value; an index out
 // of range is io.EOF.
 //@ func (*blockIterator).setIdx
-//@   props C18
+//@   props C18 C21
 //@   light
 //@   assert[header-of-entry] before call Decode#2 : arg1 == entryData
 //@   assert[base-key-from-first-entry] before call Decode#1 : arg1 == itr.data && len(itr.baseKey) == 0
@@ -235,13 +235,13 @@ package table
 // blockIterator.seek: binary search over the block's entries for the first one whose key is at
 // or after the target (entries before the start index never qualify), then positioned there.
 //@ func (*blockIterator).seek
-//@   props C18 C05
+//@   props C18 C05 C21
 //@   light
 //@   assert[search-over-all-entries] before call Search : arg0 == len(itr.entryOffsets)
 //@   assert[positioned-at-found-entry] before call setIdx : arg0 == itr && arg1 == ret(Search#1)
 
 //@ func (*blockIterator).seek.$1
-//@   props C18 C05
+//@   props C18 C05 C21
 //@   light
 //@   assert[before-start-never] before return#1 : !result && idx < startIndex
 //@   assert[compare-entry-key-with-target] before call CompareKeys : arg0 == itr.key && arg1 == key && called(setIdx#1)
@@ -251,7 +251,7 @@ package table
 // strictly after the target; the previous block is searched first, and the found block only
 // when the previous one has nothing at or after the target.
 //@ func (*Iterator).seekFrom
-//@   props C18 C05
+//@   props C18 C05 C21
 //@   light
 //@   assert[search-over-all-blocks] before call Search : arg0 == ret(offsetsLength#1)
 //@   assert[first-block-when-all-after-target] before call seekHelper#1 : ret(Search#1) == 0 && arg1 == 0 && arg2 == key
@@ -260,50 +260,50 @@ package table
 //@   assert[reset-when-from-origin] before call reset : whence == origin
 
 //@ func (*Iterator).seekFrom.$1
-//@   props C18 C05
+//@   props C18 C05 C21
 //@   light
 //@   assert[block-first-key-vs-target] before call CompareKeys : arg0 == ret(KeyBytes#1) && arg1 == key
 //@   assert[strictly-after-target] before return : result <==> ret(CompareKeys#1) > 0
 
 // seekForPrev: seek to at-or-after, and step back unless the target itself was found.
 //@ func (*Iterator).seekForPrev
-//@   props C18 C05
+//@   props C18 C05 C21
 //@   light
 //@   assert[seek-then-step-back] before call prev : called(seekFrom#1) && !ret(Equal#1)
 //@   assert[exact-match-test] before call Equal : arg0 == ret(Key#1) && arg1 == key
 
 // Direction dispatch and accessors of the table iterator.
 //@ func (*Iterator).Next
-//@   props C18 C05
+//@   props C18 C05 C21
 //@   light
 //@   assert[forward-steps-forward] before call next : itr.opt&REVERSED == 0
 //@   assert[reverse-steps-back] before call prev : itr.opt&REVERSED != 0
 
 //@ func (*Iterator).Rewind
-//@   props C18 C05
+//@   props C18 C05 C21
 //@   light
 //@   assert[forward-starts-at-first] before call seekToFirst : itr.opt&REVERSED == 0
 //@   assert[reverse-starts-at-last] before call seekToLast : itr.opt&REVERSED != 0
 
 //@ func (*Iterator).Seek
-//@   props C18 C05
+//@   props C18 C05 C21
 //@   light
 //@   assert[forward-seeks-at-or-after] before call seek : itr.opt&REVERSED == 0 && arg1 == key
 //@   assert[reverse-seeks-at-or-before] before call seekForPrev : itr.opt&REVERSED != 0 && arg1 == key
 
 //@ func (*Iterator).Key
-//@   props C18
+//@   props C18 C21
 //@   requires itr != nil
 //@   ensures result == itr.bi.key
 //@   assigns nothing
 
 //@ func (*Iterator).Value
-//@   props C18 C06
+//@   props C18 C06 C21
 //@   light
 //@   assert[decoded-from-current-entry] before call Decode : arg1 == itr.bi.val
 
 //@ func (*Iterator).ValueCopy
-//@   props C18 C06
+//@   props C18 C06 C21
 //@   light
 //@   assert[copy-of-current-entry] before call Copy : arg0 == itr.bi.val
 //@   assert[decoded-from-the-copy] before call Decode : arg1 == ret(Copy#1)
@@ -311,26 +311,26 @@ package table
 // Stepping inside a block is stepping the entry index by one; a block's ends are its first and
 // last entry.
 //@ func (*blockIterator).next
-//@   props C18
+//@   props C18 C21
 //@   light
 //@   assert[one-forward] before call setIdx : arg1 == itr.idx + 1
 //@ func (*blockIterator).prev
-//@   props C18
+//@   props C18 C21
 //@   light
 //@   assert[one-back] before call setIdx : arg1 == itr.idx - 1
 //@ func (*blockIterator).seekToFirst
-//@   props C18
+//@   props C18 C21
 //@   light
 //@   assert[first-entry] before call setIdx : arg1 == 0
 //@ func (*blockIterator).seekToLast
-//@   props C18
+//@   props C18 C21
 //@   light
 //@   assert[last-entry] before call setIdx : arg1 == len(itr.entryOffsets) - 1
 
 // Stepping across blocks: when the current block is exhausted the next (previous) block is
 // loaded and entered at its first (last) entry; past the last (before the first) block is EOF.
 //@ func (*Iterator).next
-//@   props C18
+//@   props C18 C21
 //@   light
 //@   assert[past-last-block-is-eof] before return#1 : itr.err == io.EOF && itr.bpos >= ret(offsetsLength#1)
 //@   assert[load-current-block] before call block : arg1 == itr.bpos && len(itr.bi.data) == 0
@@ -338,7 +338,7 @@ package table
 //@   assert[advance-block-when-exhausted] before call next#2 : !ret(Valid#1) && itr.bi.data == nil
 
 //@ func (*Iterator).prev
-//@   props C18
+//@   props C18 C21
 //@   light
 //@   assert[before-first-block-is-eof] before return#1 : itr.err == io.EOF && itr.bpos < 0
 //@   assert[load-current-block] before call block : arg1 == itr.bpos && len(itr.bi.data) == 0
@@ -422,14 +422,14 @@ package table
 // ---- iterating several tables of one level as one sequence (C18, C05) ----
 
 //@ func (*ConcatIterator).setIdx
-//@   props C18 C05
+//@   props C18 C05 C21
 //@   light
 //@   assert[iterator-of-that-table] before call NewIterator : arg0 == s.tables[idx] && arg1 == s.options && s.iters[idx] == nil
 //@   assert[out-of-range-means-none] before return#1 : s.cur == nil && (idx < 0 || idx >= len(s.iters)) && s.idx == idx
 //@   assert[current-is-that-table] before return#2 : s.idx == idx && s.cur == s.iters[idx]
 
 //@ func (*ConcatIterator).Rewind
-//@   props C18 C05
+//@   props C18 C05 C21
 //@   light
 //@   assert[forward-starts-at-first-table] before call setIdx#1 : s.options&REVERSED == 0 && arg1 == 0
 //@   assert[reverse-starts-at-last-table] before call setIdx#2 : s.options&REVERSED != 0 && arg1 == len(s.iters) - 1
@@ -438,7 +438,7 @@ package table
 // Seek: forward, the first table whose biggest key is at or after the target; reverse, the last
 // table whose smallest key is at or before it; none when the target lies outside.
 //@ func (*ConcatIterator).Seek
-//@   props C18 C05
+//@   props C18 C05 C21
 //@   light
 //@   assert[search-over-all-tables] before call Search : arg0 == len(s.tables)
 //@   assert[outside-means-none] before call setIdx#1 : arg1 == -1 && (idx >= len(s.tables) || idx < 0)
@@ -446,14 +446,14 @@ package table
 //@   assert[chosen-table] before call setIdx#2 : arg1 == idx && idx >= 0 && idx < len(s.tables)
 
 //@ func (*ConcatIterator).Seek.$1
-//@   props C18 C05
+//@   props C18 C05 C21
 //@   requires s != nil && 0 <= i && i < len(s.tables) && s.tables[i] != nil
 //@   domain len(s.tables[i].biggest) >= 8 && len(key) >= 8
 //@   ensures[biggest-at-or-after-target] result <==> keycmp(s.tables[i].biggest, key) >= 0
 //@   assigns nothing
 
 //@ func (*ConcatIterator).Seek.$2
-//@   props C18 C05
+//@   props C18 C05 C21
 //@   requires s != nil && 0 <= i && i < n && n == len(s.tables) && s.tables[n-1-i] != nil
 //@   domain len(s.tables[n-1-i].smallest) >= 8 && len(key) >= 8
 //@   ensures[smallest-at-or-before-target] result <==> keycmp(s.tables[n-1-i].smallest, key) <= 0
@@ -462,7 +462,7 @@ package table
 // Next: stay in the current table while it has entries; otherwise move one table on in the
 // iterator's direction (skipping empty tables) and start at that table's first entry.
 //@ func (*ConcatIterator).Next
-//@   props C18 C05
+//@   props C18 C05 C21
 //@   light
 //@   assert[stay-while-valid] before return#1 : ret(Valid#1)
 //@   assert[forward-next-table] before call setIdx#1 : s.options&REVERSED == 0 && arg1 == s.idx + 1
@@ -470,7 +470,7 @@ package table
 //@   assert[start-of-the-new-table] before call Rewind : arg0 == s.cur && s.cur != nil
 
 //@ func (*ConcatIterator).Valid
-//@   props C18 C05
+//@   props C18 C05 C21
 //@   light
 //@   assert[needs-a-current-table] before call Valid : s.cur != nil && arg0 == s.cur
 //@   assert[none-is-invalid] before return : s.cur == nil ==> !result
